@@ -136,6 +136,37 @@ func (c *c16) dump(p *MPPayment) string {
 	} else {
 		sb.WriteString(" reason=-")
 	}
+	// what the router's payment lifecycle reads off this payment
+	if p.State != nil {
+		dec := func(b bool, err error) string {
+			switch {
+			case errors.Is(err, ErrPaymentInternal):
+				return "E"
+			case err != nil:
+				return "U"
+			case b:
+				return "t"
+			}
+			return "f"
+		}
+		term := 0
+		if p.Terminated() {
+			term = 1
+		}
+		ti := "-"
+		th, tf := p.TerminalInfo()
+		switch {
+		case th != nil && th.Settle != nil && tf == nil:
+			ti = "S"
+		case th != nil:
+			ti = "X"
+		case tf != nil:
+			ti = "R" + strconv.Itoa(int(*tf))
+		}
+		fmt.Fprintf(&sb, " allow=%s wait=%s term=%d ti=%s",
+			dec(p.AllowMoreAttempts()), dec(p.NeedWaitAttempts()),
+			term, ti)
+	}
 	hs := make([]HTLCAttempt, len(p.HTLCs))
 	copy(hs, p.HTLCs)
 	sort.SliceStable(hs, func(i, j int) bool {
